@@ -140,6 +140,44 @@ theorem C02_code_callback_pass (s : PyFut.S) (m : St) (t : Nat) (ho : m.owed = s
   rw [invoke_all]
   exact ⟨rfl, rfl, rfl, model_pass t s.cbs m ho⟩
 
+/-- run a whole method without interference: the locked part, then - unless it returned or raised inside the block - the tail -/
+def runMethod (m : Method) (s : PyFut.S) : PyFut.S × Ctl :=
+  match exec m.locked s with
+  | (s1, .normal) => exec m.tail s1
+  | r => r
+
+/-- **a winning `cancel()` as a whole**: on a pending future whose `_me_cancel()` agrees, the regenerated method makes the state
+change, notifies the waiters, calls every stored callback once, in order (whatever they raise), drops the list and returns True; in the
+model that is `cancelOk t`, one `invokeNext t` per callback, `invokeEnd t`. -/
+theorem C02_code_cancel_whole (s : PyFut.S) (m : St) (t : Nat) (hr : Rel s m) (hp : s.st = .pending) (hy : s.meCancelAnswer = true) :
+    (runMethod K16.cancel s).2 = .returned (some true) ∧
+    (runMethod K16.cancel s).1.st = .cancelled ∧ (runMethod K16.cancel s).1.notified = true ∧
+    (runMethod K16.cancel s).1.invoked = s.invoked ++ s.cbs ∧ (runMethod K16.cancel s).1.cbs = [] ∧
+    ∃ m', run m (Act.cancelOk t :: (s.cbs.map (fun _ => Act.invokeNext t) ++ [.invokeEnd t])) = some m' ∧
+      m'.st = .cancelled ∧ m'.invoked = m.invoked ++ s.cbs ∧ m'.owed = none ∧ m'.stored = [] := by
+  obtain ⟨h1, h2, h3⟩ := hr
+  have hite : ∀ (s1 : PyFut.S) (a b : Stmt) (i : Nat), s1.env i = true → exec (.ite (.var i) a b) s1 = exec a s1 := by
+    intro s1 a b i h; simp [exec, evalE, h]
+  have hret : ∀ (s1 : PyFut.S) (i : Nat), exec (.ret (some (.var i))) s1 = (s1, .returned (some (s1.env i))) := by
+    intro s1 i; simp [exec, evalE]
+  obtain ⟨s1, hs1, he, hst, hcb, hno, hinv⟩ : ∃ s1, exec K16.cancel.locked s = (s1, .normal) ∧ s1.env K16.cancel_out = true ∧
+      s1.st = .cancelled ∧ s1.cbs = s.cbs ∧ s1.notified = true ∧ s1.invoked = s.invoked := by
+    have hl := (cancel_locked s).1
+    simp only [hp, hy, if_true] at hl
+    refine ⟨(exec K16.cancel.locked s).1, ?_, ?_, ?_, ?_, ?_, ?_⟩ <;> rw [hl] <;> simp [S.setVar]
+  have htail := (cancel_locked s).2
+  unfold runMethod
+  rw [hs1]
+  simp only [htail]
+  rw [exec_seq, hite _ _ _ _ he, invoke_all]
+  simp only [hret]
+  refine ⟨by simp [he], by simp [hst], by simp [hno], by simp [hinv, hcb], by simp, ?_⟩
+  have hstep : step m (.cancelOk t) = some { m with st := .cancelled, owed := some (t, m.stored), stored := [], cancelTrue := m.cancelTrue + 1, notified := true } := by
+    simp [step, h1, hp]
+  have hpass := model_pass t s.cbs { m with st := .cancelled, owed := some (t, m.stored), stored := [], cancelTrue := m.cancelTrue + 1, notified := true } (by simp [h2 hp])
+  refine ⟨_, (by simp only [run, runFrom, hstep]; exact hpass), ?_⟩
+  simp
+
 /-- no class other than `_Future` redefines a protocol method (f_nocancel's `cancel` is the deliberate exception) -/
 theorem C02_code_no_overrides : K16.protocolOverrides = [] := by decide
 
